@@ -114,3 +114,57 @@ Example C13_example :
 Proof.
   intros p. split; [reflexivity|]. apply veitch_default_factor; reflexivity.
 Qed.
+
+(** ** Componentwise and full-covariance Andrieu-Thoms, adaptive eigenvector with its covariance
+    recursion ([AdaptM]): every component's log-scale follows the acceptance ratio of that
+    component's own virtual move; the full-covariance variants move the global log-scale; and all
+    of them are the identity on their whole state (means, second moments, scales, covariance)
+    once the duration has elapsed. *)
+From Epsie Require Import AdaptM AdaptM_proofs.
+
+Theorem C13_at_componentwise_direction :
+  forall (p : @atc_state R), c_decayc p = exp (- (6 / 10) * ln (IZR (c_T p))) ->
+  forall nsteps ars x i, atc_window p nsteps = true -> (i < length (c_loglam p))%nat -> (i < length ars)%nat ->
+  let l := nth i (c_loglam p) 0 in let l' := nth i (c_loglam (atc_update p nsteps ars x)) 0 in let a := nth i ars 0 in
+  (c_target p < a -> l < l') /\ (a < c_target p -> l' < l).
+Proof. exact atc_direction. Qed.
+Print Assumptions C13_at_componentwise_direction.
+
+Theorem C13_at_componentwise_fullcov_direction :
+  forall (p : @atcf_state R) nsteps ars x i,
+  g_decayc p = exp (- (6 / 10) * ln (IZR (g_T p))) -> atcf_window p nsteps = true ->
+  (i < length (g_loglam p))%nat -> (i < length ars)%nat ->
+  let l := nth i (g_loglam p) 0 in let l' := nth i (g_loglam (atcf_update p nsteps ars x)) 0 in let a := nth i ars 0 in
+  (g_target p < a -> l < l') /\ (a < g_target p -> l' < l).
+Proof. exact atcf_direction. Qed.
+Print Assumptions C13_at_componentwise_fullcov_direction.
+
+Theorem C13_at_fullcov_direction :
+  forall (p : @atf_state R), f_decayc p = exp (- (6 / 10) * ln (IZR (f_T p))) ->
+  forall nsteps ar x, atf_window p nsteps = true ->
+  (f_target p < ar -> f_loglam p < f_loglam (atf_update p nsteps ar x))
+  /\ (ar < f_target p -> f_loglam (atf_update p nsteps ar x) < f_loglam p).
+Proof. exact atf_direction. Qed.
+Print Assumptions C13_at_fullcov_direction.
+
+Theorem C13_matrix_variants_frozen :
+  (forall (p : @atf_state R) nsteps ar x, (f_T p <= dkZ nsteps (f_start p))%Z -> atf_update p nsteps ar x = p)
+  /\ (forall (p : @atc_state R) nsteps ars x, (c_T p <= dkZ nsteps (c_start p))%Z -> atc_update p nsteps ars x = p)
+  /\ (forall (p : @atcf_state R) nsteps ars x, (g_T p <= dkZ nsteps (g_start p))%Z -> atcf_update p nsteps ars x = p)
+  /\ (forall (p : @rm_state R) cov mu nsteps ar x, (r_T p <= dkZ nsteps (r_start p))%Z ->
+        eigc_update p cov mu nsteps ar x = ((cov, mu), p)).
+Proof. exact (conj atf_frozen (conj atc_frozen (conj atcf_frozen eigc_frozen))). Qed.
+Print Assumptions C13_matrix_variants_frozen.
+
+Theorem C13_matrix_variants_frozen_forever :
+  (forall (p : @atf_state R) (hist : list (Z * R * list R)),
+     Forall (fun h => (f_T p <= dkZ (fst (fst h)) (f_start p))%Z) hist ->
+     fold_left (fun q h => atf_update q (fst (fst h)) (snd (fst h)) (snd h)) hist p = p)
+  /\ (forall (p : @atc_state R) (hist : list (Z * list R * list R)),
+     Forall (fun h => (c_T p <= dkZ (fst (fst h)) (c_start p))%Z) hist ->
+     fold_left (fun q h => atc_update q (fst (fst h)) (snd (fst h)) (snd h)) hist p = p)
+  /\ (forall (p : @atcf_state R) (hist : list (Z * list R * list R)),
+     Forall (fun h => (g_T p <= dkZ (fst (fst h)) (g_start p))%Z) hist ->
+     fold_left (fun q h => atcf_update q (fst (fst h)) (snd (fst h)) (snd h)) hist p = p).
+Proof. exact (conj atf_frozen_forever (conj atc_frozen_forever atcf_frozen_forever)). Qed.
+Print Assumptions C13_matrix_variants_frozen_forever.
